@@ -99,3 +99,25 @@ Theorem C11_rewrite_preserves_partial : forall cfg w e cmd um,
   conj2 cfg w (view_of_model cfg w e cmd um) = true.
 Proof. exact rewrite_preserves. Qed.
 Print Assumptions C11_rewrite_preserves_partial.
+
+(* ---- the regenerated constants this property's predicate / model rest on, against literals.
+   Gen/Consts.v is rewritten from the source of /repo on every run, so without this theorem an
+   edit of one of these constants would move model, predicate and code together and nothing
+   would be reported.  Used by: the predicate C11.spec (which files are layerconfigs; it spells the name out itself and reads layers through Model/Layers.v) and the skeleton a base layer is added from.
+   "frozen" = no manual text gives the value; it is the value of the reviewed tree. *)
+From LC Require Import Gen.Consts Proofs.C11PinsP.
+Local Open Scope string_scope.
+Theorem C11_constants_pinned :
+  (* doc/layercake_directories.adoc, manual page LAYER DIRECTORY: "layerconfig" *)
+  D_LayerconfigFile = bs "layerconfig" /\
+  (* manual page / doc/layercake_layerconfig.adoc: "default_layerconfig.skel" in the base directory *)
+  D_SkeletonLayerconfigFile = bs "default_layerconfig.skel" /\
+  (* doc/layercake_layerconfig.adoc prints these six lines (with {pkgdir} already replaced by the default "packages") *)
+  D_SkeletonLayerconfig = bs "import rbind /dev /dev
+import proc /proc /proc
+import rbind /sys /sys
+import rbind /var/db/repos /var/db/repos
+import rbind /var/cache/distfiles /var/cache/distfiles
+import rbind $$base/{pkgdir} /var/cache/binpkgs".
+Proof. exact c11_constants_pinned. Qed.
+Print Assumptions C11_constants_pinned.
